@@ -151,7 +151,69 @@ ASAN_ENV = {"ASAN_OPTIONS": "detect_leaks=0:abort_on_error=0:allocator_may_retur
 def asan_unit(name, harness, cases, args=(), shards=16, **kw):
     return Unit(name, harness, ASAN, cases=cases, shards=shards, link_flags=["-fsanitize=address,undefined"], env=ASAN_ENV, args=list(args), **kw)
 
+def c14_cells():
+    """The statement's matrix: public function x class of invalid argument x object state, as classified by c14.cpp."""
+    cells = set()
+    for kind in ("c128", "c64", "cm"):
+        mant = kind == "cm"
+        fns = ["init", "cleanup", "set_key", "set_tweak", "set_counter", "encrypt"] + ([] if mant else ["set_tweaked_key"])
+        for fn in fns:
+            cells.add("%s.%s/null-object" % (kind, fn))
+        for state in ("fresh", "keyed", "midstream"):
+            for fn in ["set_key"] + ([] if mant else ["set_tweaked_key"]):
+                for c in ("null-key", "bad-len", "bad-len-huge"):
+                    cells.add("%s.%s/%s@%s" % (kind, fn, c, state))
+            if mant:
+                for c in ("bad-rounds", "bad-rounds-huge"):
+                    cells.add("%s.set_key/%s@%s" % (kind, c, state))
+            for fn in ("set_tweak", "set_counter"):
+                for c in ("bad-len", "bad-len-huge", "bad-len+null", "bad-len-huge+null"):
+                    cells.add("%s.%s/%s@%s" % (kind, fn, c, state))
+            for c in ("null-in", "null-out", "null-in+out"):
+                cells.add("%s.encrypt/%s@%s" % (kind, c, state))
+        for state in ("zeroed", "failed", "cleaned"):
+            for fn in ["set_key", "set_tweak", "set_counter", "encrypt"] + ([] if mant else ["set_tweaked_key"]):
+                cells.add("%s.%s/args-ok@%s" % (kind, fn, state))
+    for kind in ("p128", "p64", "pm"):
+        mant = kind == "pm"
+        data = ["crypt"] if mant else ["enc", "dec"]
+        for fn in ["init", "cleanup", "set_key", data[0]]:
+            cells.add("%s.%s/null-object" % (kind, fn))
+        for state in ("fresh", "keyed"):
+            for c in ("null-key", "bad-len", "bad-len-huge") + (("bad-rounds", "bad-rounds-huge") if mant else ()):
+                cells.add("%s.set_key/%s@%s" % (kind, c, state))
+        for fn in data:
+            cells.add("%s.%s/ragged@keyed" % (kind, fn))
+        for state in ("zeroed", "failed", "cleaned"):
+            for fn in ["set_key"] + data + (["swap"] if mant else []):
+                cells.add("%s.%s/args-ok@%s" % (kind, fn, state))
+    for kind in ("k128", "k64", "t128", "t64", "mk"):
+        kf = "set_tweaked_key" if kind[0] == "t" else "set_key"
+        cells.add("%s.%s/null-object" % (kind, kf))
+        if kind != "k128" and kind != "k64":
+            cells.add("%s.set_tweak/null-object" % kind)
+        for state in ("unkeyed", "keyed"):
+            for c in ("null-key", "bad-len", "bad-len-huge") + (("bad-rounds", "bad-rounds-huge") if kind == "mk" else ()):
+                cells.add("%s.%s/%s@%s" % (kind, kf, c, state))
+            if kind[0] == "t" or kind == "mk":
+                for c in ("bad-len", "bad-len-huge") + (("bad-len+null", "bad-len-huge+null") if kind[0] == "t" else ()):
+                    cells.add("%s.set_tweak/%s@%s" % (kind, c, state))
+    return cells
+
+def c14_post(cov):
+    cl = cov.get("classes", {})
+    want = c14_cells()
+    hit = {k[5:]: v for k, v in cl.items() if k.startswith("cell/")}
+    never = sorted(want - set(hit))
+    cov["invalid_call_matrix"] = dict(
+        rule="cell = public function / class of invalid argument @ object state at the time of the call (state derived from the library's own "
+             "return values); expected cells are those the statement of C14 names",
+        cells_expected=len(want), cells_hit=len(want & set(hit)), cells_never_generated=never[:60],
+        thinnest_cells=sorted(((v, k) for k, v in hit.items() if k in want))[:8],
+        other_cells_generated=len(set(hit) - want))
+
 prop("C14",
+     post_cov=c14_post,
      fuzz=dict(prop=14, workers=8, seconds=120),
      units=lambda tier: [Unit("c14", ["c14.cpp", "mon_alloc.c"], LibCfg(name="shipped+allocmon", alloc_redirect=True), cases=scale(tier, 20000, 200000), shards=12),
                          Unit("c14-asan", ["c14.cpp", "mon_alloc.c"], LibCfg(name="asan+allocmon", cc="gcc", opt="-O1", cflags=ASAN_FLAGS, alloc_redirect=True),
